@@ -8,6 +8,7 @@ from typing import Any
 
 import reactivex
 from reactivex import Observable
+from reactivex.observer.autodetachobserver import AutoDetachObserver
 
 from ..catalog import CATALOG
 from ..common import UnitResult, case_rng, chunks, show
@@ -16,22 +17,25 @@ from . import _c01_pipeline as P
 
 ID = "C03"
 LEVEL = "exploration"
-RULE = ("seeded random pipelines (depth 1-4 from the %d-entry operator catalog, 1-3 conforming probe sources) are first run "
-        "undisturbed to learn the number of scheduler actions A, the elements received R and the calls of every user "
-        "callback; then the same case is re-run once per dispose point: (a) dispose() right after scheduler action j for "
-        "sampled j from the subscribe action (= before any deferred subscription effect) to the action before the terminal one (quick <= 10 incl. first two and last; thorough <= 40), "
-        "(b) from inside the subscriber's k-th on_next, (c) from inside the k-th call of an operator callback, "
-        "(d) every fifth case: the subscription is made inside a CurrentThreadScheduler (trampoline) action over library "
-        "from_iterable sources and dispose() comes from inside the k-th on_next of the synchronous burst; another fifth of "
-        "the cases puts each callback-taking catalog entry in turn directly below the subscriber. One evaluation = "
-        "one (case, dispose point). After dispose_ret: no notification at the disposed subscriber; no user-callback "
-        "invocation (callbacks of stages up to the window/group operator are excused while a window/group probe that "
-        "was live at the dispose is still subscribed; observed, not judged: callbacks after a dispose() that was "
+RULE = ("seeded random pipelines (depth 1-4 from the %d-entry operator catalog without subscribe_on, 1-3 conforming probe "
+        "sources) are first run undisturbed to learn the number of scheduler actions A, the elements received R and the "
+        "calls of every user callback; then the same case is re-run once per dispose point: (a) dispose() right after "
+        "scheduler action j for sampled j from the subscribe action (= before any deferred subscription effect) to the "
+        "action before the terminal one (quick <= 10 incl. first two and last two; thorough <= 40), (b) from inside the "
+        "subscriber's k-th on_next, (c) from inside the k-th call of an operator callback, (d) every fifth case: the "
+        "subscription is made inside a CurrentThreadScheduler (trampoline) action over library from_iterable sources and "
+        "dispose() comes from inside the k-th on_next of the synchronous burst; another fifth of the cases puts each "
+        "callback-taking catalog entry in turn directly below the subscriber. One evaluation = one (case, dispose point). "
+        "After dispose_ret: no notification at the disposed subscriber; no user-callback invocation, pulling a user "
+        "iterator included (callbacks of stages up to the window/group operator are excused while a window/group probe "
+        "that was live at the dispose is still subscribed; observed, not judged: callbacks after a dispose() that was "
         "called while an Observable.subscribe() call of the pipeline was still executing, and -- dispose point (c) only -- "
-        "callbacks made by the very operator activation that was calling the disposing callback); every source subscription closed at the dispose instant (or, when "
-        "window/group probes were live, by the instant the last of them ended) and none opened later and kept open. "
-        "non-trivial = the subscriber had not terminated when dispose() was called; distinct = digest of (sources, "
-        "pipeline with arguments, dispose point)" % len(CATALOG))
+        "callbacks made before the stage-handler activation that hosts the disposing callback has returned); every source "
+        "subscription closed at the dispose instant (or, when window/group probes were live, by the instant the last of "
+        "them ended) and none opened later and kept open (opened and closed in one instant = observation). When the "
+        "subscriber had already terminated before dispose() only silence is asserted. non-trivial = the subscriber had "
+        "not terminated when dispose() was called; distinct = digest of (sources, pipeline with arguments, dispose point)"
+        % len(CATALOG))
 ASSUMPTIONS = ["TestScheduler / HistoricalScheduler are the clock (C28)", "probe sources are harness code and conforming here",
                "the run is cut at virtual time 600", "window/group probes still subscribed are unsubscribed at t=500"]
 CASES = {"quick": 960, "thorough": 40000}
@@ -93,6 +97,8 @@ def gen(seed: int, idx: int) -> tuple:
 LIBDIR = os.path.dirname(os.path.abspath(reactivex.__file__))
 SUBSCRIBE_CODE = Observable.subscribe.__code__
 PROBE_CALL_CODE = CallbackProbe.__call__.__code__
+STAGE_ENTRY_CODES = {AutoDetachObserver.on_next.__code__, AutoDetachObserver.on_error.__code__,
+                     AutoDetachObserver.on_completed.__code__}
 
 
 class Top(ProbeObserver):
@@ -103,8 +109,9 @@ class Top(ProbeObserver):
       what it has set up (finally actions included) can only happen once it has returned -- the very reason why this
       harness has to postpone a dispose requested before its own subscribe() returned. For such dispose points only
       silence and closure are asserted; later callbacks are counted as observations;
-    * when dispose() is called from inside an operator's user callback, the operator activation that is calling that
-      callback (`activation`): callbacks made before that activation returns are observations as well."""
+    * when dispose() is called from inside an operator's user callback, the activation of the stage handler that hosts
+      that callback (`activation`: the function the stage's auto-detaching observer called; the callback's immediate
+      caller when there is none): callbacks made before that activation returns are observations as well."""
 
     during_subscribe = False
     activation: Any = None
@@ -112,13 +119,20 @@ class Top(ProbeObserver):
     def dispose(self) -> None:
         if self.subscription is not None and self.dispose_seq is None:
             f = sys._getframe(1)
-            prev_code = None
+            prev = None
+            below_probe = False          # walking up from a CallbackProbe call towards the stage's entry point
             while f is not None:
                 if f.f_code is SUBSCRIBE_CODE:
                     self.during_subscribe = True
-                elif prev_code is PROBE_CALL_CODE and self.activation is None:
-                    self.activation = f
-                prev_code = f.f_code
+                if prev is not None and prev.f_code is PROBE_CALL_CODE and self.activation is None:
+                    self.activation = f      # the immediate caller of the disposing callback ...
+                    below_probe = True
+                elif below_probe and f.f_code in STAGE_ENTRY_CODES:
+                    self.activation = prev   # ... or rather the stage handler that the auto-detaching observer called
+                    below_probe = False
+                elif below_probe and f.f_code is SUBSCRIBE_CODE:
+                    below_probe = False
+                prev = f
                 f = f.f_back
         super().dispose()
 
@@ -306,6 +320,8 @@ def evaluate(seed: int, idx: int, keep: list | None, variant: tuple, res: UnitRe
         res.count("disposed_with_live_window")
     if top.pending_dispose:
         res.count("dispose_requested_before_subscribe_returned")
+    if top.during_subscribe:
+        res.count("dispose_called_during_a_subscribe_call")
     for k, v in j["obs"].items():
         res.count(k, v)
     res.count("clock_" + b.lab.clock_kind)
